@@ -183,6 +183,8 @@ def leader_harness(w, nends, nfeedback, max_iter, outer_rounds):
                 outs.append((e.variant, e.fields[0] if e.variant == 'Item' else None))
             nrounds = []
             groups = f_part.strip()[2:].split('|') if f_part.strip().startswith('FB') else []
+            if any(g.strip().startswith('EXTRA') for g in groups):
+                raise Violation('feedback sent more than once to a replica in some round', hlib._wit(ex), {'native': txt})
             for r, (deltas, _) in enumerate(rounds):
                 toks = groups[r].split() if r < len(groups) else []
                 fbs = []
